@@ -148,6 +148,17 @@ func c10Gen(c *engine.C) engine.Case {
 		nsw := []int{0, 7, 8, 9}[c.Choose(4, "top-level-switches")]
 		height := []int{1, 3, 4, 5}[c.Choose(4, "condition-height")]
 		nestedComplex := c.Bool("nested-complex-condition")
+		other := "none"
+		if height > 1 {
+			other = engine.PickTag(c, "other-method-with-one-line-if", "none", "before", "after")
+		}
+		plainIf := func() {
+			meta := &c10Meta{}
+			add(&jg.Method{Mods: []string{"public"}, Ret: "void", Name: "plainIf", Body: []jg.Stmt{c10IfStmt(meta, 1, 0)}}, meta)
+		}
+		if other == "before" {
+			plainIf()
+		}
 		if nif > 0 || nsw > 0 || height > 1 || nestedComplex {
 			meta := &c10Meta{}
 			m := &jg.Method{Mods: []string{"public"}, Ret: "void", Name: "branchy"}
@@ -179,6 +190,9 @@ func c10Gen(c *engine.C) engine.Case {
 				}
 				add(m2, meta2)
 			}
+		}
+		if other == "after" {
+			plainIf()
 		}
 		if c.Bool("extra-smelly-methods") {
 			// more sized findings, in ascending size order in the source (so an unsorted report is visibly unsorted)
